@@ -43,18 +43,87 @@ def gen_case(rng):
     return case
 
 
+def gen_sync_panic(rng):
+    """closures that panic synchronously, before they have returned their future, with other closures
+    accepted behind them (same worker when there is one worker): the panic must stay in the task"""
+    locked = 1 if rng.random() < 0.7 else 0
+    workers = rng.choice([1, 1, 1, 2, 3, 4])
+    conc = rng.choice([0, 1])
+    join_mode = rng.choice([1, 1, 1, 0, 2])
+    d = rng.choice([1, 1, 2, 3])
+    case = [locked, workers, conc, 0, join_mode, d]
+    for t in range(d):
+        prog = []
+        for _ in range(rng.randrange(0, 3)):
+            prog.append(rng.choice([(0, 0), (1, 2), (2, 1)]))
+        if t == 0 or rng.random() < 0.5:
+            prog.append((6, 0))
+        for _ in range(rng.randrange(1, 5)):
+            prog.append(rng.choice([(0, 0), (0, 0), (1, 3), (2, 1), (4, 0), (6, 0), (3, 0)]))
+        case.append(len(prog))
+        for k, a in prog:
+            case += [k, a]
+    return case
+
+
+def gen_burst(rng):
+    """more closures than one tick of the executor runs (61) picked up by one worker in a single poll
+    of its loop — they pile up while the worker thread is blocked, or are simply dispatched in one go —
+    and nothing wakes that worker afterwards: the receivers are awaited before join"""
+    locked = 1 if rng.random() < 0.5 else 0
+    workers = 1 if rng.random() < 0.8 else 2
+    n = rng.choice([62, 63, 64, 70, 90, 122, 123, 124, 150, 183, 184, 200, 240])
+    prog = []
+    if rng.random() < 0.8:
+        for _ in range(workers):
+            prog.append((7, rng.choice([40, 60, 80])))        # every worker is busy while the burst arrives
+    # only closures that return at once: a yielding or sleeping one would wake the worker again
+    for _ in range(n):
+        prog.append((0, 0))
+    prog = prog[:255]
+    case = [locked, workers, 1, 0, 1, 1, len(prog)]
+    for k, a in prog:
+        case += [k, a]
+    return case
+
+
 def generate(seed, n):
     rng = random.Random(seed * 104729 + 18)
-    return [gen_case(rng) for _ in range(n)]
+    cases = []
+    for _ in range(n):
+        r = rng.random()
+        if r < 0.07:
+            cases.append(gen_sync_panic(rng))
+        elif r < 0.11:
+            cases.append(gen_burst(rng))
+        else:
+            cases.append(gen_case(rng))
+    return cases
+
+
+def _kinds(case):
+    ks, p = [], 6
+    for _ in range(case[5]):
+        n = case[p]
+        p += 1
+        for _ in range(n):
+            ks.append(case[p])
+            p += 2
+    return ks
 
 
 def describe(case):
     if len(case) < 6:
         return "other"
-    return "%s,%s,join=%s%s" % (
+    try:
+        ks = _kinds(case)
+    except IndexError:
+        ks = []
+    cls = ",burst>61" if len(ks) > 61 else (",sync-panic" if 6 in ks else "")
+    return "%s,%s,join=%s%s%s" % (
         "replayed" if case[0] else "free-running", "concurrent" if case[2] else "sequential",
         ["at-once", "after-receivers", "after-3ms"][case[4]] if case[4] < 3 else "?",
-        ",broken-driver" if case[3] else "")
+        ",broken-driver" if case[3] else "", cls)
 
 
 def nontrivial(case, out):
